@@ -78,35 +78,63 @@ pub fn c02(tier: Tier) -> i32 {
 
 // ------------------------------------------------------------------------------------------
 
+/// Binary-quantised margins are `padded_dim - 2 * hamming`: below 33 dimensions they are
+/// always positive, every item goes right, every split degenerates into a random one and the
+/// routing clause would be vacuous. The quantised metrics are therefore explored at 64
+/// dimensions (no padding) and 60 (4 padding bits).
+fn c04_dims(m: Metric) -> Vec<usize> {
+    if m.is_bq() {
+        vec![64, 60]
+    } else {
+        vec![2]
+    }
+}
+
 pub fn c04_runs(tier: Tier) -> Vec<(HistCfg, Caps)> {
     let obs = Observers { routing: true, ..Default::default() };
     let mut runs = Vec::new();
     match tier {
         Tier::Quick => {
             let b = build_menu(&[Some(1), Some(2)], &[None, Some(1)], 1);
+            let bq = build_menu(&[Some(1), Some(2)], &[Some(1)], 1);
             for m in only_metric(&M7) {
-                runs.push((
-                    cfg(m, 2, 5, b.clone(), vec![5, 1], obs.clone(), &format!("{}-d2", m.short())),
-                    caps(tier, 8, 0),
-                ));
-                runs.push((
-                    cfg(m, 2, 4, b.clone(), vec![4, 2], obs.clone(), &format!("{}-d2-two-updates", m.short())),
-                    caps(tier, 8, 0),
-                ));
+                for d in c04_dims(m) {
+                    let menu = if m.is_bq() { bq.clone() } else { b.clone() };
+                    runs.push((
+                        cfg(m, d, 5, menu.clone(), vec![5, 1], obs.clone(), &format!("{}-d{d}", m.short())),
+                        caps(tier, 8, 0),
+                    ));
+                    if !m.is_bq() {
+                        runs.push((
+                            cfg(m, d, 4, menu, vec![4, 2], obs.clone(), &format!("{}-d{d}-two-updates", m.short())),
+                            caps(tier, 8, 0),
+                        ));
+                    } else if d == 64 {
+                        // more seeds and two incremental operations: planes of every shape (also the
+                        // balanced ones, whose quantised Manhattan norm vanishes) get items inserted below them
+                        let seeds = build_menu(&[Some(2)], &[Some(1)], 4);
+                        runs.push((
+                            cfg(m, d, 5, seeds, vec![5, 2], obs.clone(), &format!("{}-d{d}-two-updates-4-seeds", m.short())),
+                            caps(tier, 10, 0),
+                        ));
+                    }
+                }
             }
         }
         Tier::Thorough => {
             let b = build_menu(&[None, Some(1), Some(3)], &[None, Some(1), Some(2)], 2);
             for m in only_metric(&M7) {
-                for d in [2usize, 3] {
+                let dims: Vec<usize> = if m.is_bq() { vec![64, 60, 100] } else { vec![2, 3] };
+                for d in dims {
                     runs.push((
                         cfg(m, d, 6, b.clone(), vec![6, 2], obs.clone(), &format!("{}-d{d}", m.short())),
                         caps(tier, 0, 90),
                     ));
                 }
                 let small = build_menu(&[Some(2)], &[Some(1), Some(2)], 1);
+                let d3 = if m.is_bq() { 64 } else { 2 };
                 runs.push((
-                    cfg(m, 2, 5, small.clone(), vec![5, 1, 1], obs.clone(), &format!("{}-d2-R3", m.short())),
+                    cfg(m, d3, 5, small.clone(), vec![5, 1, 1], obs.clone(), &format!("{}-d{d3}-R3", m.short())),
                     caps(tier, 0, 60),
                 ));
                 for d in [17usize, 65, 130] {
@@ -125,6 +153,13 @@ pub fn c04(tier: Tier) -> i32 {
     let mut report = Report::new("C04", tier, "model_checking");
     report.assume("LMDB/heed, roaring, rayon; a margin is judged only when its sign is certain under any f32 summation order");
     crate::props::run_hist_runs(&mut report, "C04", &c04_runs(tier));
+    // vacuity guard: every run must have judged planes (a run whose splits are all degenerate decides nothing)
+    let vacuous: Vec<String> = report.coverage.get("runs").and_then(|r| r.as_array()).map(|runs| {
+        runs.iter().filter(|r| r["counters"]["planes_judged"].as_u64().unwrap_or(0) == 0 && !r["run"].as_str().unwrap_or("").contains("wide")).map(|r| r["run"].as_str().unwrap_or("").to_string()).collect()
+    }).unwrap_or_default();
+    if !vacuous.is_empty() && report.violations.is_empty() {
+        report.machinery_error(format!("vacuous exploration: no non-degenerate plane was judged in runs {vacuous:?}"));
+    }
     report.cov("oracle", "for every built state, every tree, every split, every stored item below it: margin recomputed in f64 from the decoded normal and leaf; a non-degenerate plane with a certain margin must have the item on the side of the margin's sign; an item separated by such planes only in some tree must be returned by nns(n).search_k(1).oversampling(1).by_item(id)");
     report.finish()
 }
